@@ -1825,8 +1825,10 @@ impl<'a, 'options> ModuleEntryIterator<'a, 'options> {
       HashSet::<&'a ModuleSpecifier>::with_capacity(graph.specifiers_count());
     let mut visiting = VecDeque::<&'a ModuleSpecifier>::new();
     for root in roots {
-      seen.insert(root);
-      visiting.push_back(root);
+      // a root may be given more than once
+      if seen.insert(root) {
+        visiting.push_back(root);
+      }
     }
     for (_, dep) in graph.imports.values().flat_map(|i| &i.dependencies) {
       let mut resolutions = Vec::with_capacity(2);
